@@ -43,7 +43,17 @@ func (g *schemaGen) chance(label string, n int) bool {
 
 func (g *schemaGen) wrap(label, name string, allowNonNullOuter bool) *ref.Type {
 	t := &ref.Type{Name: name}
-	switch rapid.IntRange(0, 7).Draw(g.t, label+"wrap") {
+	switch rapid.IntRange(0, 10).Draw(g.t, label+"wrap") {
+	case 8:
+		// [[T]!]
+		t = &ref.Type{Elem: &ref.Type{Elem: t, NonNull: true}}
+	case 9:
+		// [[T!]!]!
+		t.NonNull = true
+		t = &ref.Type{Elem: &ref.Type{Elem: t, NonNull: true}, NonNull: allowNonNullOuter}
+	case 10:
+		// [[[T]]!]
+		t = &ref.Type{Elem: &ref.Type{Elem: &ref.Type{Elem: t}, NonNull: true}}
 	case 0:
 		t.NonNull = allowNonNullOuter
 	case 1:
